@@ -120,6 +120,51 @@ def r5_1(ctx):
         ctx.bad("R5.1", de.module, de.qual, "do_select(cmd, examine=True)", "EXAMINE no longer selects read-only", de.node.lineno)
 
 
+def r5_1b(ctx):
+    """The guards of R5.1 test self.examine; that flag must be what the client asked for: EXAMINE selects with
+    examine=True, SELECT with its default False, and do_select stores the parameter on the path that selects."""
+    p = ctx.p
+    ds = p.func("client.Authenticated.do_select")
+    de = p.func("client.Authenticated.do_examine")
+    g = ctx.cfg(ds)
+    ctx.analysed(de)
+    params = ds.node.args.args
+    ex = [a for a in params if a.arg == "examine"]
+    ctx.require(ex, "do_select lost its `examine` parameter", anchor=True)
+    # default False
+    defaults = dict(zip([a.arg for a in params[-len(ds.node.args.defaults):]], ds.node.args.defaults)) if ds.node.args.defaults else {}
+    d = defaults.get("examine")
+    if isinstance(d, ast.Constant) and d.value is False:
+        ctx.ok("R5.1", where(ds), "SELECT: `examine` defaults to False", nontrivial=False)
+    else:
+        ctx.bad("R5.1", ds.module, ds.qual, "examine default", "do_select's `examine` parameter no longer defaults to False: a plain SELECT opens the mailbox read-only (or EXAMINE read-write)", ds.node.lineno)
+    calls = [c for c in calls_in(de.node) if call_name(c) == "do_select"]
+    okc = [c for c in calls if (isinstance(kwarg(c, "examine"), ast.Constant) and kwarg(c, "examine").value is True) or (len(c.args) >= 2 and isinstance(c.args[1], ast.Constant) and c.args[1].value is True)]
+    if calls and len(okc) == len(calls):
+        ctx.ok("R5.1", where(de), "EXAMINE selects with examine=True")
+    else:
+        ctx.bad("R5.1", de.module, de.qual, norm(calls[0]) if calls else "do_select(cmd, examine=True)", "do_examine no longer selects the mailbox with examine=True: the session is read-write and every EXAMINE guard is void", de.node.lineno)
+    # the store, on every path that sets the SELECTED state
+    stores = {n.id for n in g.nodes if n.kind == "stmt" and isinstance(n.ast, ast.Assign) and norm(n.ast.targets[0]) == "self.examine" and norm(n.ast.value) == "examine"}
+    sel = [n.id for n in g.nodes if n.kind == "stmt" and isinstance(n.ast, ast.Assign) and norm(n.ast.targets[0]) == "self.state" and "SELECTED" in norm(n.ast.value)]
+    ctx.require(sel, "do_select: store of the SELECTED state not found")
+    bad = False
+    for s_ in sel:
+        # from the state store every normal path to the exit passes the examine store, or the examine store dominates it
+        w1 = flow.dominated_by(g, s_, lambda n: n in stores)
+        w2 = flow.escapes_without(g, s_, lambda n: n in stores, {g.exit}, flow.NORMAL) if w1 is not None else None
+        ctx.paths_explored += 2
+        if w1 is not None and w2 is not None:
+            bad = True
+    other = [n for n in g.nodes if n.kind == "stmt" and isinstance(n.ast, ast.Assign) and norm(n.ast.targets[0]) == "self.examine" and n.id not in stores and not (isinstance(n.ast.value, ast.Constant) and n.ast.value.value is False)]
+    if not stores or bad:
+        ctx.bad("R5.1", ds.module, ds.qual, "self.examine = examine", "the session's read-only flag is not set from the command on the path that selects the mailbox: after EXAMINE the session keeps the flag of the previous SELECT (read-write)", ds.node.lineno)
+    elif other:
+        ctx.bad("R5.1", ds.module, ds.qual, norm(other[0].ast), "self.examine is set from something other than the `examine` parameter", other[0].line)
+    else:
+        ctx.ok("R5.1", where(ds), "self.examine = examine on every path that enters the SELECTED state")
+
+
 def r5_2(ctx):
     p = ctx.p
     fi = p.func("client.Authenticated.do_move")
@@ -220,6 +265,27 @@ def r5_3(ctx):
         ctx.ok("R5.3", where(fi), "forced path keeps only UIDs present in this mailbox and takes the key at the UID's position")
     else:
         ctx.bad("R5.3", fi.module, fi.qual, "if uid in self._uid_to_idx: to_delete.append(self.msg_keys[idx])", "forced expunge no longer filters unknown UIDs / maps each UID to the key at its position", fi.node.lineno)
+    # guards and per-message bookkeeping of the removal loop (arm-exact: a negated guard removes nothing / everything)
+    more = [
+        (["if not self.sequences['Deleted']:\n    return", "if len(self.sequences['Deleted']) == 0:\n    return"],
+         "EXPUNGE returns early exactly when no message is \\Deleted", "the early return of EXPUNGE no longer fires exactly when the \\Deleted sequence is empty: EXPUNGE removes nothing although messages are flagged"),
+        (["if uid_msg_set is None:\n    return"],
+         "forced expunge without a UID list removes nothing", "the forced expunge (MOVE / POP3 QUIT) no longer returns when it was given no UID list"),
+        (["if msg_key not in self._msg_key_to_idx:\n    ...\n    continue"],
+         "a key that is no longer in the mailbox is skipped (and only such a key)", "the removal loop's skip test is no longer `key not in the index`: present messages are skipped / vanished ones dereferenced"),
+        (["which = self._msg_key_to_idx[msg_key]"], "position of the key looked up in the reverse index", "the position of the message to remove is no longer looked up by its key"),
+        (["del self.msg_keys[which]"], "msg_keys entry removed at that position", "the message key is no longer removed from msg_keys at the looked-up position"),
+        (["del self.uids[which]"], "uids entry removed at the same position", "the UID is no longer removed at the same position as its message key"),
+        (["self.num_msgs -= 1", "self.num_msgs = len(self.msg_keys)"], "message count follows the removal (one per removed message)", "num_msgs no longer decreases by exactly one per removed message: EXISTS / STATUS report a wrong count"),
+        (["await self.mailbox.aremove(msg_key)"], "the message file of that key is removed", "the message file removed is not the one of the key being expunged"),
+        (["for seq in self.sequences.keys():\n    for msg_key in to_delete:\n        self.sequences[seq].discard(msg_key)", "for seq in self.sequences:\n    for msg_key in to_delete:\n        self.sequences[seq].discard(msg_key)", "for seq in self.sequences.values():\n    seq.difference_update(to_delete)"],
+         "removed keys are discarded from every sequence", "removed message keys stay in the flag sequences: .mh_sequences and the database keep mentioning messages that no longer exist"),
+    ]
+    for pats, okmsg, badmsg in more:
+        if any(pm.has(x) for x in pats):
+            ctx.ok("R5.3", where(fi), okmsg)
+        else:
+            ctx.bad("R5.3", fi.module, fi.qual, pats[0].replace("\n", " "), badmsg, fi.node.lineno)
     # every reaching definition of the removal loop's list is one of the shapes bound above
     ln = [n for n in g.nodes_for(loop[0])]
     defs = reaching_defs(g, ln[0], var)
@@ -398,6 +464,7 @@ def r5_7(ctx):
 
 def run(ctx):
     ctx.do(r5_1)
+    ctx.do(r5_1b)
     ctx.do(r5_2)
     ctx.do(r5_3)
     ctx.do(r5_5)
